@@ -103,6 +103,9 @@ class SymExec:
             raise AnalysisBroken('OUT2: %s has no printbuffer parameter' % fn.name)
         self.pbd = self.pb[0]['d']
         self.obs = {}
+        self.printers = set(PRINTERS)
+        self.leaves_tail = {}
+        self.delegated = []    # (source parameter index, length parameter index) of copies whose terminator the callers owe
         self.loop_heads = {n.id: n for n in self.cfg.nodes if n.kind == 'nop' and n.name == 'loop-head'}
         self.ngrants = 0
 
@@ -242,7 +245,8 @@ class SymExec:
                     'sprintf may leave a NUL at byte %s of the grant and nothing overwrites it afterwards (a string ending in a '
                     'control character would lose what was stored there before the loop)' % st.clobber, 'clobber')
         if why == 'return':
-            ok = st.acct.leq(body) and (st.acct.eq(st.extent) or (st.nul_at is not None))
+            # a terminator position is a position: it is >= 0 whatever the symbols in it are
+            ok = (st.acct.leq(body) or (st.nul_at is not None and st.acct.eq(Lin(0)))) and (st.acct.eq(st.extent) or (st.nul_at is not None))
             self.ob('OUT3', node, 'text left for the caller\'s update_offset is zero-terminated (grant of line %d)' % g['loc'][0], ok,
                     'accounted %s, written %s, terminator %s' % (st.acct, st.extent, 'at %s' % st.nul_at if st.nul_at is not None else 'missing'),
                     'tail:%d' % g['loc'][0])
@@ -414,9 +418,11 @@ class SymExec:
             if not ok and not any(d.get('init') is not None and strip_casts(d['init']) is c for d in self.fn.locals()):
                 self.ob('OUT2', c, 'result of ensure() is kept', False, 'the granted pointer is not stored', 'ensure-unused')
             return
-        if cn in PRINTERS:
+        if cn in self.printers:
             self.close_grant(st, c, 'call')
-            st.callee_tail = True
+            # a printer normally leaves its (zero-terminated) text for the caller's update_offset; a helper that accounts
+            # for everything it wrote before it returns successfully (OUT8's summary) leaves nothing
+            st.callee_tail = bool(self.leaves_tail.get(cn, True))
             return
         if cn == 'update_offset':
             st.callee_tail = False
@@ -444,6 +450,14 @@ class SymExec:
                         self.ob('OUT2', c, 'memcpy reads %s bytes from a literal of %d' % (n.c, len(lit['bytes']) + 1), False,
                                 'reads past the literal', 'memcpy-lit:%d' % c['loc'][0])
                     nul = (n.c == len(lit['bytes']) + 1) or (n.c >= 1 and n.c <= len(lit['bytes']) and lit['bytes'][n.c - 1] == 0)
+                # source and length both handed in by the caller: whether the last byte copied is the terminator is the
+                # callers' business (checked at every call site by out23)
+                pidx = {p['d']: i for i, p in enumerate(self.fn.params)}
+                s0 = strip_casts(args[1])
+                n0 = strip_casts(args[2])
+                if not nul and s0.get('k') == 'ref' and s0.get('d') in pidx and n0.get('k') == 'ref' and n0.get('d') in pidx:
+                    self.delegated.append((pidx[s0['d']], pidx[n0['d']]))
+                    nul = True
                 self.write(st, c, p, n, nul, 'memcpy of %s bytes' % n)
         elif cn == 'sprintf' and args:
             p = self.ptr_pos(args[0], st)
@@ -698,16 +712,60 @@ class SymExec:
         return st
 
 
+def printers_of(u):
+    """the functions that print into a printbuffer handed to them: static, with a printbuffer pointer parameter"""
+    from .outbuf import _printbuffer_record
+    rec = _printbuffer_record(u)
+    out = set()
+    for f in print_family(u):
+        if f.static and f.name not in ('ensure', 'update_offset') and any(rec in u.ty(p['ty'])['s'] and '*' in u.ty(p['ty'])['s'] for p in f.params):
+            out.add(f.name)
+    return out
+
+
 def out23(units, R):
+    from .outbuf import _out8_pass
     u = units['cJSON.c']
-    fam = [f for f in print_family(u) if f.name in PRINTERS]
+    printers = printers_of(u) | PRINTERS
+    fam = [f for f in print_family(u) if f.name in printers]
+    leaves = {}
+    for _round in range(6):
+        before = dict(leaves)
+        _out8_pass(u, print_family(u), {f.name for f in print_family(u)}, leaves, None)
+        if leaves == before:
+            break
     total = 0
     for fn in fam:
         if not any(callee_name(c) == 'ensure' for c in fn.calls()):
             continue
         se = SymExec(u, fn, R)
+        se.printers = printers
+        se.leaves_tail = {k: v for k, v in leaves.items() if not k.startswith('requests:')}
         for (rule, node, what, ok, detail, key) in se.run():
             R.ob(rule, fn, node, what, ok, detail, key=key + ':' + what[:40])
         total += se.ngrants
-    R.floor('OUT2', 'printing functions with ensure() requests', len([f for f in fam if any(callee_name(c) == 'ensure' for c in f.calls())]), 5)
-    R.floor('OUT2', 'write obligations', len([o for o in R.obs if o.rule == 'OUT2']), 25)
+        for (si, li) in se.delegated:
+            for g in u.function_list:
+                for c in g.calls():
+                    if callee_name(c) != fn.name or max(si, li) >= len(c['args']):
+                        continue
+                    src, ln = strip_casts(c['args'][si]), c['args'][li]
+                    ok = False
+                    why = 'length %s is not "the text and its terminator"' % expr_str(strip_casts(ln))[:40]
+                    v = const_val(ln)
+                    if src.get('k') == 'str' and v is not None:
+                        ok = v == len(src['bytes']) + 1
+                        why = 'literal of %d bytes plus terminator, %d copied' % (len(src['bytes']), v)
+                    else:
+                        l0 = strip_casts(ln)
+                        if l0.get('k') == 'bin' and l0['op'] == '+':
+                            for (x, y) in ((l0['l'], l0['r']), (l0['r'], l0['l'])):
+                                x0 = strip_casts(x)
+                                if x0.get('k') == 'call' and callee_name(x0) == 'strlen' and x0['args'] and \
+                                        expr_str(strip_casts(x0['args'][0])) == expr_str(src) and const_val(y) == 1:
+                                    ok = True
+                                    why = 'strlen of the same text plus one'
+                    R.ob('OUT3', g, c, 'text handed to %s is copied together with its terminator' % fn.name, ok, why,
+                         key='delegated:%s:%s' % (fn.name, expr_str(src)[:30]))
+    R.floor('OUT2', 'printing functions with ensure() requests', len([f for f in fam if any(callee_name(c) == 'ensure' for c in f.calls())]), 3)
+    R.floor('OUT2', 'write obligations', len([o for o in R.obs if o.rule == 'OUT2']), 15)
